@@ -29,6 +29,8 @@ def main():
     for i, (op, out) in enumerate(zip(prog, outs)):
         out = out.split(' #')[0].strip()
         t = op.split()
+        if out.startswith('panic') and t[0] in ('pin', 'unpin', 'ispinned', 'ismo', 'findint', 'desc', 'holes'):
+            continue  # a guarded probe: the panic is the implementation's answer (e.g. pin in a CopySpace)
         if out.startswith('fatal') or out.startswith('timeout') or out.startswith('panic'):
             errors.append(f"line {i+1}: {op!r} -> {out!r}")
             break
